@@ -102,6 +102,46 @@ def _l2_read(n: int, s0: int, l0: int, s1: int, l1: int, st0: int, st1: int, r: 
     return sorted(set(S.names(got))) == sorted(exp)
 
 
+def _l2b_molecule_annotation(n: int, s0: int, l0: int, s1: int, l1: int, st0: int, st1: int, b1: int, gap: int, b2: int, rev: bool,
+                             stranded: int, method: int) -> bool:
+    """
+    pre: 1 <= n <= 2
+    pre: 0 <= s0 <= 8 and 0 <= s1 <= 8
+    pre: 0 <= l0 <= 3 and 0 <= l1 <= 3
+    pre: 0 <= st0 <= 2 and 0 <= st1 <= 2
+    pre: 1 <= b1 <= 2 and 0 <= gap <= 2 and 1 <= b2 <= 2
+    pre: 0 <= stranded <= 2
+    pre: 0 <= method <= 1
+    post: _
+    """
+    # FeatureAnnotatedMolecule.annotate: one (optionally spliced) read at 10.., features with start 6..14 and length 0,1,3,6 (pools: the
+    # molecule stores hits in sets, which makes symbolic coordinates concrete anyway);
+    # stranded: None = any strand, False = the strand of read 1, True = the opposite strand
+    from singlecellmultiomics.molecule.featureannotatedmolecule import FeatureAnnotatedMolecule
+    from singlecellmultiomics.fragment import Fragment
+    rev = True if rev else False          # concrete per path (the strand ends up inside a string index)
+    SP, LP = list(range(6, 15)), [0, 1, 3, 6]
+    feats = [(f[0], f[1], f[2], f[3], f[2]) for f in _mk(n, [(pick(SP, s0), pick(LP, l0)), (pick(SP, s1), pick(LP, l1))], [st0, st1])]     # data = name: hits are keyed by it
+    fc = _container(feats)
+    fc.sort()
+    b1c, gapc, b2c = pick([1, 2], b1 - 1), pick([0, 1, 2], gap), pick([1, 2], b2 - 1)
+    cig = [(0, b1c)] + ([(3, gapc), (0, b2c)] if gapc > 0 else [])
+    read = FakeRead(query_name='q', reference_name='chr1', reference_start=10, cigartuples=cig, seq='A' * 4, qual='I' * 4, is_reverse=rev,
+                    is_read1=True, tags={'SM': 'lib_1', 'RX': 'ACG'})
+    mode = pick([None, False, True], stranded)
+    m = FeatureAnnotatedMolecule(Fragment([read, None], umi_hamming_distance=0), features=fc, stranded=mode)
+    m.annotate(method)
+    q = None if mode is None else ('-' if (bool(rev) != mode) else '+')
+    exp = set()
+    for (bs, be) in read.get_blocks():
+        if method == 0:
+            exp.update(S.between(feats, bs, be - 1, q))     # aligned blocks are queried as closed intervals
+        else:
+            for pos in range(bs, be):
+                exp.update(S.at(feats, pos, q))
+    return sorted(m.hits.keys()) == sorted(exp)
+
+
 POOL = [0, 3, 5, 8, 10]
 
 
@@ -169,6 +209,11 @@ LEMMAS = [
     dict(name='L2_read_annotation', fn='_l2_read', engine='E1', timeout=_T, replay='replay.C16:replay',
          cases={'quick': [dict(id='m%d_g0' % m, pre=['n == 2', 'method == %d' % m, 'gap == 0', 'qs == 2', 'st0 == 0', 'st1 == 1']) for m in (0, 1)] +
                          [dict(id='m%d_g%d_b%d' % (m, g, b), pre=['n == 2', 'method == %d' % m, 'gap == %d' % g, 'b1 == %d' % b, 'b2 == 1', 'qs == 2', 'st0 == 0', 'st1 == 1', 's0 <= s1']) for m in (0, 1) for g in (1, 2) for b in (1, 2)]}),
+    dict(name='L2b_molecule_annotation', fn='_l2b_molecule_annotation', engine='E1', timeout=_T, replay='replay.C16:replay',
+         cases={'quick': [dict(id='n1_%s_m%d_%s' % (['any', 'same', 'opposite'][sd], me, 'rev' if rv else 'fwd'), pre=['n == 1', 'stranded == %d' % sd, 'method == %d' % me, 'rev == %s' % bool(rv), 's1 == 0', 'l1 == 0', 'st1 == 0', 'b2 == 1'])
+                          for sd in (0, 1, 2) for me in (0, 1) for rv in (0, 1)] +
+                         [dict(id='n2_%s_m%d_%s' % (['any', 'same', 'opposite'][sd], me, 'rev' if rv else 'fwd'), pre=['n == 2', 'stranded == %d' % sd, 'method == %d' % me, 'rev == %s' % bool(rv), 'st0 == 0', 'st1 == 1', 'b1 == 2', 'gap == 0', 'b2 == 1', '1 <= l0 <= 2', 'l1 == 1', 's0 <= 5'])
+                          for sd in (0, 1, 2) for me in (0, 1) for rv in (0, 1)]}),
     dict(name='L3_history2_real_cache', fn='_l3_history2', engine='E1', timeout=_T, replay='replay.C16:replay', real_lru_cache=True,
          cases={'quick': [dict(id='a0_%d_%s_%s' % (a, 'sort' if es else 'auto', 'early' if eq else 'late'), pre=['a0 == %d' % a, 'explicit_sort == %s' % es, 'early_query == %s' % eq, 'other_first == early_query']) for a in range(4) for es in (True, False) for eq in (True, False)]}),
     dict(name='L3_history3_real_cache', fn='_l3_history', engine='E1', timeout=_T, replay='replay.C16:replay', real_lru_cache=True, tiers=['thorough'],
@@ -177,9 +222,10 @@ LEMMAS = [
 ]
 
 PROPERTY = dict(
-    functions=['features.FeatureContainer.addFeature / sort / _findFeaturesAt (bdbnb, nb, optim, fallback) / findFeaturesAt (lru_cache) / findFeaturesBetween / findFeaturesAtPysamAlign'],
+    functions=['features.FeatureContainer.addFeature / sort / _findFeaturesAt (bdbnb, nb, optim, fallback) / findFeaturesAt (lru_cache) / findFeaturesBetween / findFeaturesAtPysamAlign',
+               'molecule.featureannotatedmolecule.FeatureAnnotatedMolecule.__init__ / annotate (both methods, stranded None / False / True)'],
     bounds={'quick': dict(point='<=2 features with UNBOUNDED start and length >= 0 (nested, identical, zero-length), 3 strand values, unbounded query coordinate (incl. negative), 4 lookup modes',
-                          range='<=2 features, unbounded range start / width', read='2 features, read with 1-2 aligned blocks of 1-2 bases, both methods',
+                          range='<=2 features, unbounded range start / width', read='2 features, read with 1-2 aligned blocks of 1-2 bases, both methods', molecule='FeatureAnnotatedMolecule over one forward or reverse read (1-2 blocks) and 1-2 features with start 6..14, length 0/1/3/6, 3 strand values; stranded any / same / opposite; both methods',
                           history='add/(sort)/query x2 (thorough x3) with coordinates from the pool {0,3,5,8} (thorough +10) (they are cache keys), 2 query coordinates repeated in every phase, explicit re-index or automatic, REAL functools.lru_cache'),
             'thorough': dict(point='3 features split over the relative order of starts')},
     outside=['GTF/BED loading', 'several contigs (per-contig dictionaries)', 'more than 3 features', 'findNearestFeature'],
